@@ -354,6 +354,8 @@ def _int_tokens(n: int, out: list) -> None:
     if abs(n) < INT_LIMIT:
         out.append(["int", n, 0])
         return
+    if abs(n) >= 10 ** 72:
+        raise Outside("integer literal with more than 72 digits")
     q, r = divmod(abs(n), INT_BASE)          # n = +-(q * 10^9 + r)
     _int_tokens(q, out)
     out.append(["int", INT_BASE, 0])
